@@ -69,18 +69,23 @@ Print Assumptions C19_marker_prefix_every_start_string.
 Example C19_marker_code_is_delimiter_aware : autoindent_delimiter_aware = true.
 Proof. reflexivity. Qed.
 
-(* (3) lineprefix (translated do_lineprefix): split at "\n", the output consists of exactly the lines str.splitlines()
+(* (3) lineprefix.  The translated filter is one of two shapes (flag regenerated from filters.py):
+   `lineprefix_legacy` = '\n'.join(prefix + l if l else l for l in s.splitlines())   -- what /repo has now; it DROPS the final
+   terminator of the value and rewrites every terminator to LF: finding F-JINJA-LINEPREFIX-TERMINATOR (with trim_blocks + lstrip_blocks
+   the template line after a marker block is glued to its last line), patch design_notes/C19_lineprefix_terminator_fix.patch;
+   `lineprefix_keep`   = ''.join(prefix + l if l.splitlines()[0] else l for l in s.splitlines(True))   -- the patched shape.
+   LEGACY shape: split at "\n", the output consists of exactly the lines str.splitlines()
    finds in the input, each non-empty one prefixed, empty ones unchanged.  Consequences spelled out below:
    every terminator (CR LF, CR, VT, FF, FS, GS, RS, NEL, LS, PS) becomes one LF and the final terminator is dropped. *)
 Theorem C19_lineprefix_spec :
   forall (s p : str),
     forallb (fun c => negb (c =? 10)) p = true ->
     py_splitlines s <> [] ->
-    split_lf (do_lineprefix s p) = map (prefix_line p) (py_splitlines s).
+    split_lf (lineprefix_legacy s p) = map (prefix_line p) (py_splitlines s).
 Proof. exact lineprefix_spec_lemma. Qed.
 Print Assumptions C19_lineprefix_spec.
 
-Theorem C19_lineprefix_empty : forall p : str, do_lineprefix [] p = [] /\ (forall s, py_splitlines s = [] -> s = []).
+Theorem C19_lineprefix_empty : forall p : str, lineprefix_legacy [] p = [] /\ (forall s, py_splitlines s = [] -> s = []).
 Proof. intros p. split; [reflexivity | exact splitlines_nil_inv]. Qed.
 Print Assumptions C19_lineprefix_empty.
 
@@ -93,18 +98,43 @@ Print Assumptions C19_lineprefix_lines_have_no_terminator.
 Theorem C19_lineprefix_drops_final_terminator :
   forall (s p : str) (b : N),
     s <> [] -> is_linebreak (last s 0) = false -> is_linebreak b = true ->
-    do_lineprefix (s ++ [b]) p = do_lineprefix s p.
+    lineprefix_legacy (s ++ [b]) p = lineprefix_legacy s p.
 Proof. exact lineprefix_final_terminator. Qed.
 Print Assumptions C19_lineprefix_drops_final_terminator.
 
-(* the full "line structure is preserved" reading is false: a trailing EMPTY line disappears, CR LF becomes LF *)
+(* the legacy shape does NOT preserve the text (finding F-JINJA-LINEPREFIX-TERMINATOR: final terminator dropped, CR LF -> LF);
+   lead: moves to History/C19_history.v together with the other lineprefix_legacy theorems when the patch lands *)
 Theorem C19_lineprefix_preserves_text_refuted :
-  exists s : str, do_lineprefix s [] <> s.
+  exists s : str, lineprefix_legacy s [] <> s.
 Proof. exists [97; 13; 10; 98; 10]. vm_compute. discriminate. Qed.
 Print Assumptions C19_lineprefix_preserves_text_refuted.
 
 Example C19_lineprefix_example :
-  do_lineprefix [97; 13; 10; 10; 98; 11; 99; 10] [32; 32] = [32; 32; 97; 10; 10; 32; 32; 98; 10; 32; 32; 99].
+  lineprefix_legacy [97; 13; 10; 10; 98; 11; 99; 10] [32; 32] = [32; 32; 97; 10; 10; 32; 32; 98; 10; 32; 32; 99].
+Proof. vm_compute. reflexivity. Qed.
+
+(* which shape the code in /repo has, and the facts about the fixes already landed *)
+Theorem C19_lineprefix_code_is : do_lineprefix = lineprefix_m lineprefix_keepends.
+Proof. exact do_lineprefix_is. Qed.
+Print Assumptions C19_lineprefix_code_is.
+
+Example C19_lineprefix_soft_unicode_live : lineprefix_soft_unicode = true.
+Proof. reflexivity. Qed.
+
+(* PATCHED shape: the output is the concatenation of the input's lines WITH their terminators (which concatenate back to the input:
+   nothing dropped, no terminator rewritten), each preceded by the prefix iff its content is non-empty; with an empty prefix the
+   filter is the identity *)
+Theorem C19_lineprefix_keep_spec :
+  forall s p : str, lineprefix_keep s p = concat (map (prefix_line_keep p) (py_splitlines_keep s)) /\ concat (py_splitlines_keep s) = s.
+Proof. exact lineprefix_keep_spec. Qed.
+Print Assumptions C19_lineprefix_keep_spec.
+
+Theorem C19_lineprefix_keep_text_preserved : forall s : str, lineprefix_keep s [] = s.
+Proof. exact lineprefix_keep_text_preserved. Qed.
+Print Assumptions C19_lineprefix_keep_text_preserved.
+
+Example C19_lineprefix_keep_example :
+  lineprefix_keep [97; 13; 10; 10; 98; 11; 99; 10] [32; 32] = [32; 32; 97; 13; 10; 10; 32; 32; 98; 11; 32; 32; 99; 10].
 Proof. vm_compute. reflexivity. Qed.
 
 (* (4) auto-indent desugaring: what Parser.subparse builds for `{{* e }}` / `{%* stmt %}` renders as the lineprefix filter
@@ -279,15 +309,15 @@ Theorem C19_pipeline_conservative :
                           (forall ends t, tsuffix t toks -> cb1 ends t = cb2 ends t) -> ps cb1 toks = ps cb2 toks) ->
     forall (ev : E -> C -> option V) (text : V -> str)
            (rs : (list (pnode E St) -> C -> option (str * C)) -> St -> C -> option (str * C))
-           (mv mb : str -> option str)
+           (mv mb : str -> option str) (g : bool)
            (rules : xrules) (inner : str -> option N -> str -> option (list xtok * nat)) (fuel : nat) (src : str) (c : C),
       marker_free py_uni rules None src = true ->
       (forall toks, scanx_all py_uni (demarkx rules) inner src = Some toks -> no_marker_tokens mv mb (wrap toks) = true) ->
-      pipeline E St C V mv mb pt ps ev text rs py_uni rules inner fuel src c =
-      pipeline E St C V never never pt ps ev text rs py_uni (demarkx rules) inner fuel src c.
+      pipeline E St C V mv mb g pt ps ev text rs py_uni rules inner fuel src c =
+      pipeline E St C V never never g pt ps ev text rs py_uni (demarkx rules) inner fuel src c.
 Proof.
-  intros E St C V pt ps H1 H2 H3 ev text rs mv mb rules inner fuel src c.
-  exact (pipeline_conservative_lemma E St C V pt ps H1 H2 H3 ev text rs mv mb py_uni rules inner fuel src c).
+  intros E St C V pt ps H1 H2 H3 ev text rs mv mb g rules inner fuel src c.
+  exact (pipeline_conservative_lemma E St C V pt ps H1 H2 H3 ev text rs mv mb g py_uni rules inner fuel src c).
 Qed.
 Print Assumptions C19_pipeline_conservative.
 
@@ -305,16 +335,16 @@ Theorem C19_pipeline_conservative_delimiter_aware :
                           (forall ends t, tsuffix t toks -> cb1 ends t = cb2 ends t) -> ps cb1 toks = ps cb2 toks) ->
     forall (ev : E -> C -> option V) (text : V -> str)
            (rs : (list (pnode E St) -> C -> option (str * C)) -> St -> C -> option (str * C))
-           (sv sb : list str)
+           (sv sb : list str) (g : bool)
            (rules : xrules) (inner : str -> option N -> str -> option (list xtok * nat)) (fuel : nat) (src : str) (c : C),
       (forall st, In st (sv ++ sb) -> st <> [] -> covers rules st = true) ->
       (forall n p rest toks k, inner n p rest = Some (toks, k) -> forallb (fun t => negb (root_begin (fst t))) toks = true) ->
       marker_free py_uni rules None src = true ->
-      pipeline E St C V (marker_m true sv) (marker_m true sb) pt ps ev text rs py_uni rules inner fuel src c =
-      pipeline E St C V never never pt ps ev text rs py_uni (demarkx rules) inner fuel src c.
+      pipeline E St C V (marker_m true sv) (marker_m true sb) g pt ps ev text rs py_uni rules inner fuel src c =
+      pipeline E St C V never never g pt ps ev text rs py_uni (demarkx rules) inner fuel src c.
 Proof.
-  intros E St C V pt ps H1 H2 H3 ev text rs sv sb rules inner fuel src c Hcov Hin Hfree.
-  apply (pipeline_conservative_lemma E St C V pt ps H1 H2 H3 ev text rs _ _ py_uni rules inner fuel src c Hfree).
+  intros E St C V pt ps H1 H2 H3 ev text rs sv sb g rules inner fuel src c Hcov Hin Hfree.
+  apply (pipeline_conservative_lemma E St C V pt ps H1 H2 H3 ev text rs _ _ g py_uni rules inner fuel src c Hfree).
   intros toks Hs. exact (aware_no_marker_tokens_lemma py_uni inner Hin rules (demarkx rules) sv sb src toks Hcov Hfree Hs).
 Qed.
 Print Assumptions C19_pipeline_conservative_delimiter_aware.
@@ -330,17 +360,17 @@ Theorem C19_pipeline_conservative_live :
                           (forall ends t, tsuffix t toks -> cb1 ends t = cb2 ends t) -> ps cb1 toks = ps cb2 toks) ->
     forall (ev : E -> C -> option V) (text : V -> str)
            (rs : (list (pnode E St) -> C -> option (str * C)) -> St -> C -> option (str * C))
-           (sv sb : list str)
+           (sv sb : list str) (g : bool)
            (rules : xrules) (inner : str -> option N -> str -> option (list xtok * nat)) (fuel : nat) (src : str) (c : C),
       (forall st, In st (sv ++ sb) -> st <> [] -> covers rules st = true) ->
       (forall n p rest toks k, inner n p rest = Some (toks, k) -> forallb (fun t => negb (root_begin (fst t))) toks = true) ->
       marker_free py_uni rules None src = true ->
-      pipeline E St C V (code_marker sv) (code_marker sb) pt ps ev text rs py_uni rules inner fuel src c =
-      pipeline E St C V never never pt ps ev text rs py_uni (demarkx rules) inner fuel src c.
+      pipeline E St C V (code_marker sv) (code_marker sb) g pt ps ev text rs py_uni rules inner fuel src c =
+      pipeline E St C V never never g pt ps ev text rs py_uni (demarkx rules) inner fuel src c.
 Proof.
-  intros E St C V pt ps H1 H2 H3 ev text rs sv sb rules inner fuel src c Hcov Hin Hfree.
+  intros E St C V pt ps H1 H2 H3 ev text rs sv sb g rules inner fuel src c Hcov Hin Hfree.
   change (code_marker sv) with (marker_m true sv). change (code_marker sb) with (marker_m true sb).
-  exact (C19_pipeline_conservative_delimiter_aware E St C V pt ps H1 H2 H3 ev text rs sv sb rules inner fuel src c Hcov Hin Hfree).
+  exact (C19_pipeline_conservative_delimiter_aware E St C V pt ps H1 H2 H3 ev text rs sv sb g rules inner fuel src c Hcov Hin Hfree).
 Qed.
 Print Assumptions C19_pipeline_conservative_live.
 
@@ -358,15 +388,15 @@ Proof. vm_compute. repeat split. Qed.
    Markup: whatever `text` = soft_unicode/to_string yields) -- with every non-empty line prefixed by w (C19_lineprefix_spec),
    followed by the identical rest in the identical context. *)
 Theorem C19_autoindent_print_parse :
-  forall (E St : Type) pt ps (mv mb : str -> option str) f ends v w te (e : E) ve rest,
-    mv v = Some w ->
+  forall (E St : Type) pt ps (mv mb : str -> option str) (g : bool) f ends v w te (e : E) ve rest,
+    mv v = Some w -> g && minus_first te = false ->
     pt te = Some (e, (K_VAREND, ve) :: rest) ->
-    subparse E St mv mb pt ps (S f) ends ((n_variable, v) :: te) =
-    match subparse E St mv mb pt ps f ends rest with
+    subparse E St mv mb g pt ps (S f) ends ((n_variable, v) :: te) =
+    match subparse E St mv mb g pt ps f ends rest with
     | Some (ns, r) => Some (PPrint (NFilter e autoindent_filter_name w) :: ns, r)
     | None => None
     end.
-Proof. intros E St pt ps mv mb. exact (subparse_marker_print E St pt ps mv mb). Qed.
+Proof. intros E St pt ps mv mb g. exact (subparse_marker_print E St pt ps mv mb g). Qed.
 Print Assumptions C19_autoindent_print_parse.
 
 Theorem C19_autoindent_print_render :
